@@ -74,6 +74,7 @@ def run(ctx, report, prop, spec_file, modules, reviewed=None, skip_sides=None):
             if not cm.diffs and side == 'parse':
                 report.sample({'rule': R1, 'class': name, 'ref': entry.get('ref'), 'layout': [e.sig() for e in cm.spec.elements][:8], 'verdict': 'both sides agree' if True else ''}, 10)
     registries(ctx, report, R2, spec.get('registries', {}))
+    enum_bindings(ctx, report, R2, modules)
     # coverage
     not_wire = spec.get('not_wire', {})
     for c in model.concrete_parsables():
@@ -177,3 +178,47 @@ def registries(ctx, report, rule, regs):
 
 def enum_where(c):
     return ('cryptodatahub:' + c.name) if c.external else c.construct
+
+
+def enum_bindings(ctx, report, rule, modules):
+    """the registry a wire field is decoded through (converter of parse_numeric / flags class / item class of a name-list)
+    is the one sa/specs/enums.json names for that field; only a *different* registry at the same field is reported"""
+    import json
+    import os
+    from .trace import Op, walk
+    with open(os.path.join(os.path.dirname(os.path.abspath(__file__)), 'specs', 'enums.json')) as fh:
+        table = json.load(fh)['bindings']
+    model = ctx.model
+    for cname, fields in table.items():
+        base = model.try_cls(cname)
+        if base is None:
+            report.error('%s: class %s of the registry binding table vanished' % (rule, cname))
+            continue
+        if base.module.name not in modules:
+            continue
+        targets = [k for k in [base] + list(model.all_subclasses(base)) if not k.abstract_methods]
+        for c in targets:
+            f = c.resolve('_parse')
+            if f is None:
+                continue
+            try:
+                res = ctx.canon.layout(c, 'parse').result
+            except Exception:      # pylint: disable=broad-except
+                continue
+            for n in walk(res.block):
+                if not (isinstance(n, Op) and n.side == 'parse'):
+                    continue
+                key = n.args.get('name')
+                if key not in fields:
+                    continue
+                got = None
+                for k in ('converter', 'flags_class', 'item_class', 'parsable_class'):
+                    v = n.args.get(k)
+                    if isinstance(v, ClassV) and getattr(v.cls, 'enum_members', None) is not None:
+                        got = v.cls.name
+                if got is None:
+                    continue
+                report.count(rule)
+                if got != fields[key]:
+                    report.add(rule, '%s@binding[%s]' % (c.construct, key),
+                               'field %s is decoded through registry %s, the specification interprets it in %s' % (key, got, fields[key]))
